@@ -50,13 +50,17 @@ type env struct {
 	clock  *hx.FixedClock
 	G      *zap.Logger // for ReplaceGlobals
 	C      *zap.Logger // shared child with a namespaced context
-	sinks  []*rsink
+	// out-of-range levels: a fresh block of values per execution, one slot per thread (no sharing between threads)
+	oorBase  int
+	oorCalls [4]int
+	sinks    []*rsink
 }
 
 var families = []string{"io", "tee", "sampler", "hooked", "increase", "lazy", "observer", "buffered", "console", "combine1"}
 
 func build(family string, warm int) *env {
-	e := &env{family: family, clock: hx.NewFixedClock()}
+	oorNext += 8 // build runs before the threads start
+	e := &env{family: family, clock: hx.NewFixedClock(), oorBase: oorNext}
 	e.AL = zap.NewAtomicLevelAt(zap.DebugLevel)
 	enc := func() zapcore.Encoder {
 		cfg := zap.NewProductionEncoderConfig()
@@ -74,7 +78,9 @@ func build(family string, warm int) *env {
 	case "io":
 		core = io()
 	case "console": // console encoder (its context encoder is shared by every entry of a derived logger)
-		core = zapcore.NewCore(zapcore.NewConsoleEncoder(zap.NewDevelopmentEncoderConfig()), zapcore.Lock(newSink()), e.AL)
+		ccfg := zap.NewDevelopmentEncoderConfig()
+		ccfg.EncodeLevel = zapcore.CapitalColorLevelEncoder // the colour encoders keep package-level lookup tables
+		core = zapcore.NewCore(zapcore.NewConsoleEncoder(ccfg), zapcore.Lock(newSink()), e.AL)
 	case "combine1": // a single destination behind CombineWriteSyncers: documented to be locked like several
 		core = zapcore.NewCore(enc(), zap.CombineWriteSyncers(newSink()), e.AL)
 	case "tee":
@@ -212,6 +218,13 @@ var ops = map[string]opFn{
 		r.AddAttrs(slog.Int("x", t))
 		_ = e.H3.WithGroup("t"+strconv.Itoa(t)).Handle(context.Background(), r)
 	},
+	// a level outside the named range, a different one on every call of the process (whatever is computed
+	// once per level value and kept is computed here while the other thread is at work)
+	"oorlevel": func(e *env, t int) {
+		k := e.oorCalls[t&3]
+		e.oorCalls[t&3]++
+		e.L.Log(zapcore.Level(7+(e.oorBase+t*2+k)%120), "out-of-range level")
+	},
 	"ctxnof":  func(e *env, t int) { e.C.Info("no fields through the shared context logger") },
 	"ctxf":    func(e *env, t int) { e.C.Info("c", zap.Int("t", t)) },
 	"stack":   func(e *env, t int) { e.L.Error("e", zap.Int("t", t)) },
@@ -232,7 +245,9 @@ var ops = map[string]opFn{
 	"obsfilt": func(e *env, t int) { _ = e.obs.FilterMessage("m").Len() },
 }
 
-var commonOps = []string{"info", "check", "with", "withlazy", "named", "withopt", "level", "sync", "lazyinfo", "lazywith", "lazydbg", "sinfow", "swith", "sinfof", "setlevel", "getlevel", "replaceg", "globall", "globals", "slog", "slogattr", "sloggrp", "sloggrp3", "ctxnof", "ctxf", "stack", "errs", "reflect", "panic", "fatal", "dpanic", "lwrite", "lsync"}
+var oorNext int
+
+var commonOps = []string{"info", "check", "with", "withlazy", "named", "withopt", "level", "sync", "lazyinfo", "lazywith", "lazydbg", "sinfow", "swith", "sinfof", "setlevel", "getlevel", "replaceg", "globall", "globals", "slog", "slogattr", "sloggrp", "sloggrp3", "ctxnof", "ctxf", "oorlevel", "stack", "errs", "reflect", "panic", "fatal", "dpanic", "lwrite", "lsync"}
 var reducedOps = []string{"info", "ctxnof", "with", "lazyinfo", "sinfow", "setlevel", "replaceg", "globall", "slogattr", "panic", "sync"}
 
 func opsFor(family string) []string {
